@@ -27,8 +27,12 @@ CEIDS = ["n1", "n50", "t" + gemlib.hexs("ce-t"), "n99", "n1.2", "n"]          # 
 CEID_W = [5, 6, 5, 2, 1, 1]
 RPTIDS = ["n1", "n2", "t" + gemlib.hexs("r-t"), "n1.2", "n"]
 RPTID_W = [6, 5, 5, 1, 1]
-VIDS = ["n30", "n31", "t" + gemlib.hexs("sv-t"), "n1003", "n99", "n30.30", "n"]    # SV 30, DV 31, SV "sv-t", EventsEnabled, unknown
-VID_W = [6, 5, 4, 3, 2, 1, 1]
+# ids that exist on the equipment in ANOTHER id space but are neither a status variable nor a data value: equipment constants
+# (1, 2 predefined, 60, "ec-t"), alarm 70, collection events 50 / "ce-t", report ids ("r-t"; 1 and 2 are also RPTIDs/CEIDs), a remote command
+FOREIGN = ["n1", "n2", "n60", "t" + gemlib.hexs("ec-t"), "n70", "n50", "t" + gemlib.hexs("ce-t"), "t" + gemlib.hexs("r-t"), "t" + gemlib.hexs("START")]
+VIDS = ["n30", "n31", "t" + gemlib.hexs("sv-t"), "n1003", "n99", "n30.30", "n"] + FOREIGN  # SV 30, DV 31, SV "sv-t", EventsEnabled, unknown, …
+VID_W = [6, 5, 4, 3, 2, 1, 1] + [2, 2, 1, 1, 1, 1, 1, 1, 1]
+VID_TAME = [12, 10, 8, 6, 0, 0, 0] + [2, 2, 1, 1, 1, 0, 0, 0, 0]
 SV_CELLS = {"n30": "n0", "t" + gemlib.hexs("sv-t"): "n0", "n1001": "t" + gemlib.hexs(CLOCK), "n1002": "n3", "n1004": "l", "n1005": "l"}
 DV_CELLS = {"n31": "t"}
 CFG = ("C" + ",".join(["n1", "n2", "n3", "n20", "n21", "n50", "t" + gemlib.hexs("ce-t")])
@@ -71,7 +75,7 @@ def gen_op(rng, state):
         return weighted(rng, CEIDS, CEID_W if wild else [6, 6, 6, 1, 0, 0])
 
     def vid():
-        return weighted(rng, VIDS, VID_W if wild else [6, 5, 4, 3, 0, 0, 0])
+        return weighted(rng, VIDS, VID_W if wild else VID_TAME)
 
     enabled = [k for k, _, en in links if en]
     w = [28 * (3 if not defined else 1), 28 if defined else 5, 14 if links else 3, 12 if enabled else 4, 16 if enabled else 2, 6, 4]
@@ -153,6 +157,10 @@ class Run:
         h.data_values[31].value = ""
         h.collection_events[50] = secsgem.gem.CollectionEvent(50, "ce50", [])
         h.collection_events["ce-t"] = secsgem.gem.CollectionEvent("ce-t", "cet", [])
+        # ids of the other id spaces (never variables): equipment constants, an alarm
+        h.equipment_constants[60] = secsgem.gem.EquipmentConstant(60, "ec60", 0, 100, 5, "u", V.U4)
+        h.equipment_constants["ec-t"] = secsgem.gem.EquipmentConstant("ec-t", "ect", 0, 100, 5, "u", V.U4)
+        h.alarms[70] = secsgem.gem.Alarm(70, "al70", "alarm", 1, 50, 50)
         self.values = {k: v for k, v in list(SV_CELLS.items()) + list(DV_CELLS.items())}  # the harness's own record
 
     def item(self, i):
@@ -287,10 +295,18 @@ def expected_report(run, state, ceid, force=False):
                     if v == "n1003":
                         vals.append("l" + "+".join(c for c, _, e in links if e))
                     else:
-                        vals.append(run.values[v])
+                        vals.append(run.values.get(v, "?"))   # "?": not a variable the harness knows a value of - one value all the same
                 out.append(r + "(" + ",".join(vals) + ")")
             return "r" + ceid + "[" + ";".join(out) + "]"
     return "r" + ceid + "[]"
+
+
+def matches(out, want) -> bool:
+    """equality, where "?" in `want` stands for exactly one value"""
+    import re
+    if want is None:
+        return False
+    return re.fullmatch("[^,()|;]*".join(re.escape(w) for w in want.split("?")), out) is not None
 
 
 def oracle(run, op, out, before, after):
@@ -320,8 +336,8 @@ def oracle(run, op, out, before, after):
         # linked and enabled: exactly the linked reports; not linked: an empty report; linked but disabled: the text does
         # not pin whether the host still gets the linked reports, both are accepted
         ok = [full] if entry is not None and entry[1] else ["r" + c + "[]"] if entry is None else ["r" + c + "[]", full]
-        if out not in ok:
-            return ("event-report", f"{op}: got {out}, the linked reports with current values are {full}")
+        if not any(matches(out, w) for w in ok):
+            return ("event-report", f"{op}: got {out}, the linked reports with one current value per variable are {full}")
     if op[0] == "T":
         # one S6F11 per linked and enabled CEID of the call, in list order, each with its linked reports and current values
         want = []
@@ -333,8 +349,8 @@ def oracle(run, op, out, before, after):
                     return ("event-report", f"{op}: CEID {c} is linked to an undefined report, no well-formed report exists (got {out})")
                 want.append(full)
         want = "|".join(want) if want else "-"
-        if out != want:
-            return ("trigger-reports", f"{op}: sent {out}, the enabled linked events of the call are {want}")
+        if not matches(out, want):
+            return ("trigger-reports", f"{op}: sent {out}, the enabled linked events of the call (one current value per variable) are {want}")
     return None
 
 
@@ -409,6 +425,9 @@ def main():
             ["Rn1=n30,n1003;n2=n31", "Ln50=n2,n1,n2", "E1:", "Vn30=n7", "Qn50", "Tn50", "Rn2=", "Qn50", "R", "Qn50"],
             ["Rn1=n30", "Rn1=n31", "Rn1=n99", "Ln99=n1", "Ln1=n2", "Ln1=n1", "Ln1=n1", "E1:n1,n99", "E0:n1.2,n1"],
             ["Rn1=n30;n1=n31", "Ln1=n1;n1=n1", "Ln1=", "Ln1=n1;n50=n1", "Rn1=;n2=n30", "E1:", "Qn1", "Qn50"],
+            # VIDs that are ids of other id spaces (equipment constants 1, 2, 60; alarm; CEID; RPTID; remote command): DRACK 4, nothing defined
+            ["Rn1=n30,n2", "Ln50=n1", "E1:n50", "Qn50", "Tn50", "Rn2=n60", "Rn2=n70;t" + gemlib.hexs("r-t") + "=n50", "Rn2=t" + gemlib.hexs("START") + ",n31",
+             "Rn2=n30,n31", "Ln50=n2", "E1:", "Qn50", "Tn50,n50"],
             # one trigger call over enabled / disabled / unlinked / unknown CEIDs in every position, with repeats
             ["Rn1=n30;n2=n31", "Ln1=n1;n50=n2,n1;t" + gemlib.hexs("ce-t") + "=n2", "E1:n1,n50", "Tn1,t" + gemlib.hexs("ce-t") + ",n50",
              "Tt" + gemlib.hexs("ce-t") + ",n1", "Tn99,n50,n2,n1", "Tn50,n50", "E0:n1", "Tn1,n50,n1", "Tn1", "Tn2,n99"],
